@@ -54,7 +54,9 @@ Section Spec.
   Definition raw_ok (raw : bytes) : Prop := (exists v, Json raw v) /\ GoodTxt raw.
   Definition iface_ok (r : ifaceres) : Prop := match r with IfOk raw => raw_ok raw | IfErr _ => True end.
   Definition time_ok (t : tval) : Prop := s_timefmt st = TFLayout -> plain_text (t_fmt t).
-  Definition dur_ok (d : dval) : Prop := s_dur_int st = false -> float_ok (d_quot d).
+  (* integer durations: d / DurationFieldUnit panics in Go when the unit is 0 *)
+  Definition dur_ok (d : dval) : Prop :=
+    (s_dur_int st = false -> float_ok (d_quot d)) /\ (s_dur_int st = true -> s_dur_unit st <> 0%Z).
 
   Definition prim_ok (p : prim) : Prop :=
     match p with
